@@ -188,9 +188,10 @@ OpH == [ Base EXCEPT !.sel = <<"n","h">>, !.pos = <<"x","y">>, !.npd = 1, !.dflt
 \* a method of the class n.g: called on an instance that the class's configurable builds
 OpM == [ Base EXCEPT !.sel = <<"n","g","s">>, !.kind = "meth", !.pos = <<"p","q">>, !.npd = 2,
                       !.dflt = {<<"p", D("p")>>, <<"q", N1>>}, !.api = "register", !.deny = {"q"} ]
-OpConfs == {OpF, OpG, OpH, GinMacro, OpM}
+OpConfs == {OpF, OpG, OpH, GinMacro, OpM, GinSingleton}
 OpRegs == {OpConfs}
 OpValsF == { L1, L2, N1, R(<<"n","g">>, <<>>, "call"), R(<<"n","g">>, <<"a">>, "call"), Pct(<<"W">>),
+             R(<<"gin","singleton">>, <<"s1">>, "call"),        \* a singleton: its section (and its constructor) belong to the record
              <<"list", <<L1, R(<<"n","g">>, <<>>, "bare")>>>> }
 OpValsG == { L1, L2 }
 OpValsM == { L1, L2 }
@@ -198,8 +199,9 @@ OpFilter(sc, c, v) ==
   \/ c.sel = <<"m","f">> /\ v \in OpValsF
   \/ c.sel \in {<<"n","g">>, <<"n","h">>, <<"n","g","s">>} /\ v \in OpValsG
   \/ c.sel = <<"gin","macro">> /\ v \in OpValsM /\ sc = <<"W">>
-OpBindVals == OpValsF \cup OpValsG \cup OpValsM
-NamesOp == <<"k", "p", "q", "r", "value", "x", "y", "z">>
+  \/ c.sel = <<"gin","singleton">> /\ v = R(<<"n","g">>, <<>>, "bare") /\ sc = <<"s1">>
+OpBindVals == OpValsF \cup OpValsG \cup OpValsM \cup { R(<<"n","g">>, <<>>, "bare") }
+NamesOp == <<"constructor", "k", "p", "q", "r", "value", "x", "y", "z">>
 
 ------------------------------------------------------------------------------
 (* C20: clear_config after any history *)
